@@ -56,7 +56,7 @@ func httpBody(c *runner.Ctx) {
 	}
 	var reqs []*request
 	for i := 0; i < nReq; i++ {
-		g := &gen{c: c, w: w, budget: 10, rootTN: true, unionFrags: c.Choose(4, "union-type-fragments") == 1}
+		g := &gen{c: c, w: w, budget: 10, rootTN: true, bareFrags: true, unionFrags: c.Choose(4, "union-type-fragments") == 1}
 		root := g.genSet("Query", 0)
 		if c.Choose(4, "directives") == 1 {
 			g.dirs = true
